@@ -11,7 +11,7 @@ from typing import List
 
 from bounded import isolated
 from props import C01c
-from props.native_common import HELPERS, VALIDITY, add_native_functions, helper_jobs, loader_jobs, native_assumptions, validity_jobs
+from props.native_common import ring_jobs, ring_report, HELPERS, VALIDITY, add_native_functions, helper_jobs, loader_jobs, native_assumptions, validity_jobs
 from vc.common import Report, main_wrapper, run_and_discharge
 
 PROP = 'C11'
@@ -24,6 +24,7 @@ def jobs(tier: str) -> List[tuple]:
     js += loader_jobs(C01c.WIDTHS if th else (64,))  # bulk load: page-word indices, reference balance on every path
     for w in (C01c.WIDTHS if th else (64,)):
         js.append((C01c.unit_loop, ('run_flat_loop_impl', w, 0)))
+    js += ring_jobs()  # last_ops_ring_to_list: every ring subscript inside the ring; Memory_run: the ring has exactly last_ops_length elements and is freed once
     if th:
         for w in C01c.WIDTHS:
             js.append((C01c.unit_loop, ('run_paged_loop_impl', w, 0)))
@@ -40,8 +41,9 @@ def body(tier: str, seed: int) -> int:
     add_native_functions(rep, ('Memory_set_words',), 'bulk load before the storage decision (page-backed): loop invariant absM = entry memory + first i items masked; Rep; reference balance')
     add_native_functions(rep, VALIDITY + ('Memory_add_segment',), 'segment-list functions: index obligations on every segments[i] access, from the list invariant count <= capacity')
     add_native_functions(rep, ('run_flat_loop_impl', 'run_paged_loop_impl') + HELPERS, 'quick: helpers at w=8,64 + flat loop w=64; thorough: all widths, all loops')
+    ring_report(rep)
     native_assumptions(rep)
-    rep.assume('[A] malloc/calloc/realloc/free; [B only] mem_decide_storage, Memory_add_segment/set_words/set_word/get_word, build_run_result, Memory_init/dealloc: covered by the sanitizer runs, not under contract')
+    rep.assume('[A] malloc/calloc/realloc/free; [B only] mem_decide_storage, Memory_add_segment/set_words/set_word/get_word, Memory_init/dealloc: covered by the sanitizer runs, not under contract')
     rep.notes.append('bounds + undefined-behaviour + reference-balance obligations of the functions under contract; sanitizer build as bounded companion')
     th = tier == 'thorough'
     isolated.run(rep, 'directed', 0, seed, asan=True, label='asan-directed', only_crashes=True)
